@@ -474,7 +474,7 @@ def run_check(mod, tier, seed, replay=None):
         "wall_s": round(time.time() - ctx.t0, 2),
         "violations": violations,
     }
-    write_json(os.path.join(VERIF, "evidence", f"{prop}.json"), ev)
+    write_json(os.path.join(os.environ.get("VERIF_EVIDENCE_DIR", os.path.join(VERIF, "evidence")), f"{prop}.json"), ev)
     print(f"[{prop}] tier={tier} seed={seed} theorems={len(lean.theorems)} proof_ok={proof_ok} "
           f"evaluations={ctx.evaluations} distinct_nontrivial={len(ctx.nontrivial)} "
           f"diffs={len(ctx.diffs)} oracle_failures={len(ctx.oracle_failures)} "
